@@ -70,8 +70,9 @@ def build(pk, cons, arity, idx, k0, k1, form, ns):
             return None
         inner = W(S(proj(b), lam("j", attr("j", "pt"))), lam("p", ast.Compare(other(b), [ast.Gt()], [const(30)])))
         return S(s1, lam(b, call("Count", inner)))
-    if cons == 9:     # a pass-through stage Select(x -> x) between producer and consumer
-        return S(S(s1, lam(b, name(b))), lam(c, scalar(c)))
+    if cons == 9:     # a pass-through stage Select(x -> x) in a chain of four: package, take apart and package again, hand on as it is, take apart
+        mid = S(s1, lam(b, ast.Tuple([other(b), scalar(b)], L)))
+        return S(S(mid, lam(c, name(c))), lam("w", ast.BinOp(sub(name("w"), 0), ast.Add(), sub(name("w"), 1))))
     if cons == 10:    # First(...) of a SelectMany whose lambda packages per inner element, projected after the First
         if pk == 0:
             per, pj = ast.Tuple([attr("t", "pt"), attr("j", "eta")], L), (lambda x: sub(x, idx % 2))
